@@ -230,6 +230,10 @@ theorem stored_never_decreases (cfg : Cfg) (hx : cfg.ignoreExact = true) (evs : 
     apply hif; split
     · rfl
     · unfold doApplyGetFail ignoreMsg ackTo; (repeat' split) <;> rfl
+  case applyNoRows =>
+    apply hif; split
+    · rfl
+    · unfold doApplyNoRows; (repeat' split) <;> rfl
   case applyTake => apply hif; unfold doApplyTake; (repeat' split) <;> rfl
   case applyAcquire => apply hif; unfold doApplyAcquire; (repeat' split) <;> rfl
   case applyWrite =>
@@ -954,7 +958,7 @@ theorem files_and_stored_change_only_at_dataCommit (cfg : Cfg) (st : St) (e : Ev
     (step cfg st e).files = st.files ∧ (step cfg st e).stored = st.stored := by
   cases e <;> first
     | exact absurd rfl h
-    | (simp only [step, whenRunning, doCrash, doRecover, doRewind, doAppend, doAppendBad, doApplyBegin, doApplyGetFail, beginAt,
+    | (simp only [step, whenRunning, doCrash, doRecover, doRewind, doAppend, doAppendBad, doApplyBegin, doApplyGetFail, doApplyNoRows, beginAt,
         ignoreMsg, ackTo, ackOpt, addNames, doApplyTake, doApplyAcquire, doApplyWrite, putRow, doApplyCommit,
         doFreeze, doAckCallback, doLogGC, doWalExpire]
        repeat' split
